@@ -62,6 +62,22 @@ func obsOfKind(r *kit.Runner, from int, kind string) *kit.Obs {
 
 func genOverlap(rt *rapid.T, oo overlapOpts) *overlapCase {
 	cfg := kit.GenConfig(rt, oo.Gen)
+	for _, k := range oo.AKinds {
+		if k == "create" && rapid.Bool().Draw(rt, "moreInitializers") {
+			// several initializer functions: a scope creation that overlaps something runs a list of them
+			nid := 0
+			for _, r := range cfg.Regs {
+				if r.ID >= nid {
+					nid = r.ID + 1
+				}
+			}
+			for j := rapid.IntRange(1, 3).Draw(rt, "nInitializers"); j > 0; j-- {
+				cfg.Regs = append(cfg.Regs, kit.Reg{ID: nid, Life: kit.Scoped, Form: kit.FormVoid, HasErr: rapid.Bool().Draw(rt, "initErr")})
+				nid++
+			}
+			break
+		}
+	}
 	x, err := startRunWith(cfg, nil, func(w *kit.World) {
 		if oo.Prep != nil {
 			oo.Prep(w, rt)
